@@ -1,6 +1,66 @@
-(* C18 — cumulative profiles upload as clipped deltas.  Headline theorems only. *)
+(* C18 — cumulative profiles upload as clipped deltas; snapshots stay intact.  Headline theorems only.
+
+   tt_den t k   : the count stored under the full byte string k (0 when k does not end on a node)
+   tt_wf t      : below the root no node name is empty and sibling names start with different bytes
+   ms_count ms k: the sum of the counts listed for k in the multiset ms
+
+   Non-mutation of the two snapshots is vacuous in a pure model; it is checked on the implementation
+   by the correspondence run (structural dump and Iterate output of both tries before and after Diff). *)
 From Pyro Require Import Model.Base Model.Varint Model.TTrie Proofs.TTrieProofs.
 
-Theorem C18_den_empty : forall k, tt_den tt_empty k = 0.
-Proof. exact tt_den_empty. Qed.
-Print Assumptions C18_den_empty.
+(* Insert: add (merge) or set the count of one key, every other key keeps its count; well-formedness is preserved *)
+Theorem ttrie_den_insert : forall key v merge t, tt_wf t ->
+  tt_wf (tt_insert key v merge t) /\
+  forall k, tt_den (tt_insert key v merge t) k =
+            if beqb k key then (if merge then tt_den t key + v else v) else tt_den t k.
+Proof. exact TTrieProofs.ttrie_den_insert. Qed.
+Print Assumptions ttrie_den_insert.
+
+(* inserting the same stack repeatedly accumulates its count *)
+Theorem ttrie_insert_accumulates : forall ms,
+  tt_wf (tt_of_multiset ms) /\ forall k, tt_den (tt_of_multiset ms) k = ms_count ms k.
+Proof. exact TTrieProofs.ttrie_insert_accumulates. Qed.
+Print Assumptions ttrie_insert_accumulates.
+
+(* per stack: current minus previous, clipped at zero (N subtraction), for every non-empty key;
+   nothing is assumed about prev *)
+Theorem C18_diff : forall cur prev, tt_wf cur ->
+  tt_wf (tt_diff cur prev) /\
+  forall k, k <> [] -> tt_den (tt_diff cur prev) k = tt_den cur k - tt_den prev k.
+Proof. exact ttrie_diff_den. Qed.
+Print Assumptions C18_diff.
+
+(* what is uploaded: Iterate over the diff reports exactly the stacks with a positive clipped difference *)
+Theorem C18_diff_iterate : forall cur prev K v, tt_wf cur -> tt_name cur = [] -> K <> [] ->
+  (In (K, v) (tt_iterate (tt_diff cur prev)) <-> (0 < v /\ v = tt_den cur K - tt_den prev K)).
+Proof. exact ttrie_diff_iterate. Qed.
+Print Assumptions C18_diff_iterate.
+
+(* stacks that only existed before contribute nothing *)
+Theorem C18_prev_only_silent : forall cur prev K, tt_wf cur -> tt_name cur = [] -> K <> [] ->
+  tt_den cur K = 0 -> forall v, ~ In (K, v) (tt_iterate (tt_diff cur prev)).
+Proof. exact ttrie_prev_only_silent. Qed.
+Print Assumptions C18_prev_only_silent.
+
+(* The statement without "k <> []" is false of the code: Diff never visits the root, so the count stored
+   under the empty key is passed on unchanged.  (The session never inserts an empty stack.)
+     forall cur prev k, tt_wf cur -> tt_wf prev -> tt_den (tt_diff cur prev) k = tt_den cur k - tt_den prev k   -- FALSE *)
+Theorem C18_empty_key_refuted :
+  exists cur prev, tt_wf cur /\ tt_wf prev /\
+    tt_den (tt_diff cur prev) [] <> tt_den cur [] - tt_den prev [].
+Proof. exact ttrie_diff_empty_key_refuted. Qed.
+Print Assumptions C18_empty_key_refuted.
+
+Theorem C18_empty_key_untouched : forall cur prev, tt_wf cur -> tt_wf prev ->
+  tt_den (tt_diff cur prev) [] = tt_den cur [].
+Proof. exact ttrie_diff_empty_key_untouched. Qed.
+Print Assumptions C18_empty_key_untouched.
+
+(* non-vacuity: a current snapshot with shared non-boundary prefixes, a previous snapshot with a key that
+   forces a split ("fo"), an underflowing key ("foo") and a prev-only key ("fox") *)
+Example C18_diff_nonvacuous :
+  let cur := tt_of_multiset [([102;111;111], 2); ([102;111;111;98;97;114], 7); ([109], 1)] in
+  let prev := tt_of_multiset [([102;111;111], 9); ([102;111], 1); ([102;111;120], 4); ([102;111;111;98;97;114], 3)] in
+  tt_wf cur /\ tt_name cur = [] /\
+  tt_iterate (tt_diff cur prev) = [([102;111;111;98;97;114], 4); ([109], 1)].
+Proof. vm_compute. repeat split. Qed.
